@@ -166,10 +166,34 @@ def check_model(net, bounds, P, stats):
                             warnings.simplefilter("ignore")
                             add_loopless(model)
                             sol = model.optimize()
+                            # the loop-free model stays a model: bounds edited afterwards (within the largest bound
+                            # magnitude the model had, which is what the formulation's big-M is sized for) apply
+                            edited = []
+                            maxb = max(max(abs(r[2]), abs(r[3])) for r in rxns)
+                            for j in iidx:
+                                for alt in ((-maxb, maxb), (0, maxb), (-maxb, 0)):
+                                    if alt == (rxns[j][2], rxns[j][3]) or maxb == 0:
+                                        continue
+                                    with model:
+                                        model.reactions.get_by_id(ids[j]).bounds = alt
+                                        s2 = model.optimize()
+                                        edited.append((j, alt, s2.status, s2.objective_value if s2.status == "optimal" else None))
                 except Exception as exc:
                     out.append(({"fn": "add_loopless", "check": "raised", "direction": direction}, case,
                                 f"{exc!r}\nmodel {rxns}"))
                     continue
+                for j, alt, st2, z2 in edited:
+                    stats["evaluations"] = stats.get("evaluations", 0) + 1
+                    rx2 = [(rid, stc, alt[0], alt[1]) if k == j else (rid, stc, lb, ub) for k, (rid, stc, lb, ub) in enumerate(rxns)]
+                    fba2 = exactlp.FBA(mets, rx2, obj, direction)
+                    stl2, zl2 = oracles.loopless_optimum(fba2, patterns)
+                    case2 = dict(case, edit=[ids[j], list(alt)])
+                    if (stl2 == OPT) != (st2 == "optimal"):
+                        out.append(({"fn": "add_loopless", "check": "status after a later bounds edit differs from the loop-free model",
+                                     "direction": direction}, case2, f"{ids[j]}.bounds={alt}: status {st2}, oracle {stl2} {zl2}\nmodel {rxns}"))
+                    elif stl2 == OPT and abs(z2 - float(zl2)) > TOL * max(1, abs(float(zl2))):
+                        out.append(({"fn": "add_loopless", "check": "optimum after a later bounds edit differs from the loop-free optimum",
+                                     "direction": direction}, case2, f"{ids[j]}.bounds={alt}: {z2} vs {zl2}\nmodel {rxns}"))
                 if stl != OPT:
                     if sol.status == "optimal":
                         out.append(({"fn": "add_loopless", "check": "optimal although no loop-free distribution exists",
